@@ -136,7 +136,7 @@ theorem src_retry_loop (op : Nat → Outcome) (entry : Option Err) (ev : Nat →
     (c : Cfg) (retries : Int) :
     ∀ (fuel n : Nat) (re : FErr) (ws : List Int) (cont : Bool) (err : GoErr), (n : Int) + fuel < 2 ^ 63 →
       obsT (Gen.retry_ExpBackOff_RetryWithCtx_loop1 (retryEnv op entry ev rnd late hd) fuel ⟨n, re, ws⟩
-              (n : Int) cont () () () c err () hd () retries)
+              c () retries () cont err () () () hd (n : Int))
         = obsM (loop c retries op ev rnd fuel n re ws) := by
   intro fuel
   induction fuel with
@@ -146,7 +146,7 @@ theorem src_retry_loop (op : Nat → Outcome) (entry : Option Err) (ev : Nat →
     have hw : wrapS 64 ((n : Int) + 1) = ((n + 1 : Nat) : Int) := by
       rw [wrapS64_id] <;> omega
     refine (congrArg obsT (Gen.retry_ExpBackOff_RetryWithCtx_loop1.eq_2 (retryEnv op entry ev rnd late hd) ⟨n, re, ws⟩
-      (n : Int) cont () () () c err () hd () retries fuel)).trans ?_
+      c () retries () cont err () () () hd (n : Int) fuel)).trans ?_
     unfold loop
     by_cases hc : retries = forever ∨ (n : Int) < retries
     · have hc' : (decide (retries = -1) || decide ((n : Int) < retries)) = true := by
